@@ -15,7 +15,7 @@
          is lost when the special dictionaries hold no reference under an unlisted entry
                                                                                [..._partial]  *)
 From Coq Require Import List ZArith NArith Bool.
-From PV Require Import C19.Generated C19.Model C19.Spec C19.ProofsClosed C19.ProofsIso C19.ProofsFuel C19.ProofsWitness.
+From PV Require Import C19.Generated C19.Model C19.Spec C19.ProofsClosed C19.ProofsIso C19.ProofsFuel C19.ProofsWitness C19.ProofsUnique.
 Import ListNotations.
 
 (* ---------- (A) read (write s) = s up to the renumbering ---------- *)
@@ -167,6 +167,25 @@ Theorem C19_pdf20_entries_not_listed_refuted :
   memk kOutputIntents page_keys = false /\ memk kAF page_keys = false /\ memk kDPart page_keys = false.
 Proof. exact pdf20_keys_not_listed. Qed.
 Print Assumptions C19_pdf20_entries_not_listed_refuted.
+
+(* ---------- object numbers of the emitted records ---------- *)
+(* every emitted record is the only one under its number, except that a page tree node may be
+   written again by the page tree traversal (the later record wins); without such a second
+   write the numbers are pairwise distinct.  The numbers of the objects the writer creates
+   (fresh info dict, encryption dict, object streams, xref stream) are not modelled: the
+   harness checks on the implementation that none of them is a number the document still
+   references (oracle classes recycled-number-still-referenced:KIND). *)
+Theorem C19_records_unique_partial :
+  forall g maxd fuel delv root info s,
+  write_model g maxd fuel delv root info = WOk s ->
+  uniq s /\
+  ((forall s1 n o s2, s = s1 ++ (n, (MPages, o)) :: s2 -> written s2 n = false) -> NoDup (dom s)).
+Proof.
+  intros g maxd fuel delv root info s H.
+  pose proof (write_model_uniq g maxd fuel delv root info s H) as U.
+  split; [exact U|exact (uniq_nodup s U)].
+Qed.
+Print Assumptions C19_records_unique_partial.
 
 (* ---------- the model never runs out of fuel ---------- *)
 Theorem C19_fuel_suffices :
